@@ -5,6 +5,7 @@ package main
 // golang.org/x/crypto/md4, unicode/utf16, crypto/des with a textbook str_to_key, x/crypto/pbkdf2.
 
 import (
+	"bytes"
 	"crypto/des"
 	"crypto/sha1"
 	"encoding/hex"
@@ -197,6 +198,31 @@ func init() {
 			{Name: "c01.md4sum",
 				Impl:   func(a []string) string { d := rmd4.Sum(unhx(a[0])); return okHex(d[:]) },
 				Oracle: func(a []string) string { return okHex(oMD4(unhx(a[0]))) }},
+			// `c01.md4big <n>`: n octets streamed in 1 MiB writes into the library's MD4 and into x/crypto/md4; the message is far
+			// too long for a protocol line or the Lean driver (the bit count passes 2^32 at 2^29 octets), so the reference
+			// implementation is the only judge here
+			{Name: "c01.md4big", Impl: func(a []string) string {
+				n := atoi(a[0])
+				lib, ref := rmd4.New(), xmd4.New()
+				chunk := make([]byte, 1<<20)
+				for k := 0; n > 0; k++ {
+					for i := range chunk {
+						chunk[i] = byte(i*31 + k*7 + 1)
+					}
+					w := chunk
+					if n < len(w) {
+						w = w[:n]
+					}
+					lib.Write(w)
+					ref.Write(w)
+					n -= len(w)
+				}
+				l, r := lib.Sum(), ref.Sum(nil)
+				if !bytes.Equal(l[:], r) {
+					return "ok differ library=" + hx(l[:]) + " reference=" + hx(r)
+				}
+				return "ok same"
+			}},
 			{Name: "c01.utf16",
 				Impl: func(a []string) string { return okHex(rutf16.EncodeUTF16LE(string(unhx(a[0])))) },
 				Oracle: func(a []string) string {
@@ -444,6 +470,15 @@ func sortedCuts(r *Rng, n, k int) []int {
 
 func genC01(r *Rng, tier string) []Case {
 	var cs []Case
+	// messages whose bit count no longer fits 32 bits (streamed; judged by the reference implementation only)
+	bigs := []int{1<<29 + 100}
+	if tier == "thorough" {
+		bigs = []int{1<<29 - 1, 1 << 29, 1<<29 + 100}
+	}
+	for _, n := range bigs {
+		a := []string{strconv.Itoa(n)}
+		cs = append(cs, Case{Op: "c01.md4big", SArgs: a, MArgs: a, NoM: true, Tag: "md4.bit-count-beyond-32-bits"})
+	}
 	thorough := tier == "thorough"
 	hist := func(line, tag string) {
 		cs = append(cs, Case{Op: "c01.md4", MArgs: []string{line}, SArgs: []string{line}, Tag: tag})
